@@ -1374,8 +1374,9 @@ class Runner:
             c.update(extra)
         return c
 
-    def add(self, stream, probes, ops, last_only=False, oracle_on=True):
-        """oracle_on=False: the history lies outside the property's quantifier; only the model correspondence is checked"""
+    def add(self, stream, probes, ops, last_only=False, oracle_on=True, model_on=True):
+        """oracle_on=False: the history lies outside the property's quantifier; only the model correspondence is checked.
+        model_on=False: the model does not cover this kind of history (stage O only)"""
         res = self.res
         obs = run_impl(probes, ops, last_only)
         self.histories += 1
@@ -1384,7 +1385,7 @@ class Runner:
         found = self.oracle(probes, ops, obs, res) if oracle_on else []
         if found:
             self._violation(stream, probes, ops, found)
-        if self.model:
+        if self.model and model_on:
             self.pending.append((stream, probes, ops, obs))
             if len(self.pending) >= self.chunk:
                 self.flush()
